@@ -85,7 +85,7 @@ def run_config(ctx, rep, cfg):
                 rep.ok("C15.R1", cons, ini.loc(call), "single allocation, obj->ctx := %s on all %d success exits" % (term_str(ent[1], s.addr_reg, prog), nz.exits), cfg=cn)
             init_info.append((ini, s, call, sites[0][2], ent))
             # R6
-            rd = [(addr_str(l.addr, prog), w) for k2, (l, w) in s.reads.items() if l.addr.root == ("arg", 0)]
+            rd = [(addr_str(l.addr, prog), w) for k2, (l, w) in s.reads.items() if l.addr.root == ("arg", 0) and len(l.addr.segs) == 1]
             if rd:
                 rep.violation("C15.R6", cons, csite(rd[0][1]), "init reads %s of the caller's (possibly uninitialised / stale) object at %s" % rd[0], cfg=cn)
             else:
